@@ -114,4 +114,47 @@ theorem gzipRun_cases (blocks : List Block) (path ae : Bytes) (i : Inner) :
   · left
     simp [hae]
 
+/-! ### a coding listed verbatim is a coding offered -/
+
+theorem mem_trimLeft {x : UInt8} {s : Bytes} (hx : x ∈ s) (hs : isSpace x = false) : x ∈ trimLeft s := by
+  induction s with
+  | nil => cases hx
+  | cons c cs ih =>
+    unfold trimLeft
+    by_cases hc : isSpace c = true
+    · simp only [hc, if_true]
+      rcases List.mem_cons.mp hx with rfl | hx
+      · rw [hs] at hc; cases hc
+      · exact ih hx
+    · simp only [hc]; exact hx
+
+theorem mem_trimSpace {x : UInt8} {s : Bytes} (hx : x ∈ s) (hs : isSpace x = false) : x ∈ trimSpace s := by
+  unfold trimSpace
+  exact List.mem_reverse.mpr (mem_trimLeft (List.mem_reverse.mpr (mem_trimLeft hx hs)) hs)
+
+theorem splitOn_not_mem (sep : UInt8) (s : Bytes) (h : sep ∉ s) : splitOn sep s = [s] := by
+  induction s with
+  | nil => rfl
+  | cons c cs ih =>
+    have hc : ¬ c = sep := fun e => h (by rw [e]; exact List.mem_cons_self)
+    have hcs : sep ∉ cs := fun m => h (List.mem_cons_of_mem _ m)
+    unfold splitOn
+    rw [ih hcs]
+    simp [hc]
+
+theorem offers_of_lists (ae : Bytes) (c : Coding) (h : listsCoding ae c = true) : offersCoding ae c = true := by
+  unfold listsCoding at h
+  unfold offersCoding
+  rw [List.any_eq_true] at h ⊢
+  obtain ⟨acc, hacc, heq⟩ := h
+  refine ⟨acc, hacc, ?_⟩
+  have heq' : trimSpace acc = c.name := by simpa using heq
+  have hsemi : (59 : UInt8) ∉ acc := by
+    intro hm
+    have := mem_trimSpace hm (by decide)
+    rw [heq'] at this
+    cases c <;> simp [Coding.name] at this
+  rw [splitOn_not_mem 59 acc hsemi]
+  simp [heq']
+
 end Casket.Gzip
